@@ -26,8 +26,8 @@ type SimFS struct {
 	Opts   FSOpts
 	Direct bool // execute without scheduling (oracle reads after a stop)
 	// crash point of this run (sweep): call index and phase
-	StopCall  int // -1 none
-	StopPhase int // 0 before, 1 after, 2+b: inside the write after b bytes
+	StopCall    int // -1 none
+	StopPhase   int // 0 before, 1 after, 2+b: inside the write after b bytes
 	RenameDirty int // renames whose source was not flushed
 }
 
